@@ -30,7 +30,7 @@ def r13_1(ctx):
             names = nfq.names(pc)
             if "self.buffers." + fn in names:
                 n += 1
-                ok = pc["guards"].get("(p1.len32() == 0)") is False
+                ok = gval(pc["guards"], "(p1.len32() == 0)") is False
                 ctx.ob("R13.1", "push-only-non-empty/" + fn, ok, "the buffer is stored only on the false edge of len32() == 0" if ok else "a buffer can be stored without the emptiness test: an empty buffer in the queue breaks peek()/next()")
     ctx.floor("R13.1", "push-sites", n, 2)
     for fn in ("next", "pop_except_from"):
